@@ -159,7 +159,7 @@ def judge(script, impl):
         if exp_ra == 0:
             continue
         if arch == "x86":
-            if (cfa == sp and ra == rav) or cfa < sp:
+            if (cfa == sp and ra == rav) or cfa < sp or (not first and cfa <= sp):
                 continue
             if on_fp and (fp == 0 or cfa <= sp):
                 continue
